@@ -201,7 +201,16 @@ func TestVerifC11Helper(t *testing.T) {
 	os.Exit(0)
 }
 
-func c11Check(cc *c11Case, st *vfkit.Stats) (v *vfkit.Violation, labels []string, nt bool) {
+// c11Mode lets another property reuse the restart machinery with its own
+// generator steering, observer and invariants (C12: opt-outs across restarts).
+type c11Mode struct {
+	prop  string
+	opts  func(policy string) genOpts
+	setup func(e *executor)
+	invs  func(policy string) []invFn
+}
+
+func c11Check(cc *c11Case, st *vfkit.Stats, mode *c11Mode) (v *vfkit.Violation, labels []string, nt bool) {
 	base := vhNewStateDir()
 	defer vhRemove(base)
 	dir := filepath.Join(base, "state")
@@ -273,6 +282,12 @@ func c11Check(cc *c11Case, st *vfkit.Stats) (v *vfkit.Violation, labels []string
 		}
 		ops := append([]hcOp{{Kind: "sync"}}, rs.After...)
 		invs := c11Invs(cc.History.Policy)
+		if mode != nil {
+			invs = mode.invs(cc.History.Policy)
+			if mode.setup != nil {
+				mode.setup(e)
+			}
+		}
 		for k, op := range ops {
 			var r *stepResult
 			func() {
@@ -305,8 +320,8 @@ func c11Check(cc *c11Case, st *vfkit.Stats) (v *vfkit.Violation, labels []string
 					return v, labels, nt
 				}
 			}
-			if k == 0 {
-				// only the synchronization is judged for restart-specific clauses
+			if e.pendingViolation != nil {
+				return e.pendingViolation, labels, nt
 			}
 		}
 	}
@@ -314,9 +329,12 @@ func c11Check(cc *c11Case, st *vfkit.Stats) (v *vfkit.Violation, labels []string
 	return nil, labels, nt
 }
 
-func c11Gen(t *rapid.T, policy string, kill bool) *c11Case {
+func c11Gen(t *rapid.T, policy string, kill bool, mode *c11Mode) *c11Case {
 	var h *hcCase
 	o := genOpts{Policy: policy, MinOps: 6, MaxOps: 25, Reconfig: false, FillPools: true, ExclHeavy: policy == polTA}
+	if mode != nil {
+		o = mode.opts(policy)
+	}
 	if policy == polTA {
 		h = genTACase(t, o)
 	} else {
@@ -342,7 +360,7 @@ func c11Gen(t *rapid.T, policy string, kill bool) *c11Case {
 			rs.Truth = append(rs.Truth, op)
 		}
 		if rapid.Bool().Draw(t, "afterOps") {
-			after := genOps(t, genOpts{Policy: policy, MinOps: 2, MaxOps: 6, Anns: o.Anns}, h.Topo, nil)
+			after := genOps(t, genOpts{Policy: policy, MinOps: 2, MaxOps: 6, Anns: o.Anns, OptOuts: o.OptOuts, MemPressure: o.MemPressure}, h.Topo, nil)
 			rs.After = after
 		}
 		cc.Restarts = append(cc.Restarts, rs)
@@ -350,9 +368,14 @@ func c11Gen(t *rapid.T, policy string, kill bool) *c11Case {
 	return cc
 }
 
-func c11Test(t *testing.T, policy, unit string, kill bool) {
+func c11Test(t *testing.T, policy, unit string, kill bool) { c11TestMode(t, policy, unit, kill, nil) }
+
+func c11TestMode(t *testing.T, policy, unit string, kill bool, mode *c11Mode) {
 	defer vfkit.Flush()
 	st := vfkit.For(c11)
+	if mode != nil {
+		st = vfkit.For(mode.prop)
+	}
 	if kill {
 		if _, err := exec.LookPath("strace"); err != nil {
 			t.Skip("strace not available")
@@ -360,8 +383,21 @@ func c11Test(t *testing.T, policy, unit string, kill bool) {
 	}
 	var best *c11Case
 	rapid.Check(t, func(t *rapid.T) {
-		cc := c11Gen(t, policy, kill)
-		v, labels, nt := c11Check(cc, st)
+		cc := c11Gen(t, policy, kill, mode)
+		v, labels, nt := c11Check(cc, st, mode)
+		if mode != nil && nt {
+			// non-trivial for the borrowing property: an opted-out container lived through a restart
+			nt = false
+			for _, p := range cc.History.Ops {
+				if p.Pod != nil {
+					for k := range p.Pod.Annotations {
+						if strings.Contains(k, "preserve") {
+							nt = true
+						}
+					}
+				}
+			}
+		}
 		st.Case(unit, nt, vfkit.Hash(cc), labels...)
 		if nt && st.WantSample() && len(cc.History.Ops) <= 12 {
 			st.Sample(map[string]any{"history": cc.History.summary(), "kill_at": cc.KillAt, "restarts": cc.Restarts})
@@ -390,8 +426,37 @@ func TestVerifC11Replay(t *testing.T) {
 		t.Fatalf("replay: %v", err)
 	}
 	for i := 0; i < 10; i++ {
-		if v, _, _ := c11Check(cc, nil); v != nil {
-			vfkit.For(c11).Report(t, rf.Unit, v, cc)
+		var mode *c11Mode
+		if rf.Property == "C12" {
+			mode = c12RestartMode
+		}
+		if v, _, _ := c11Check(cc, nil, mode); v != nil {
+			vfkit.For(rf.Property).Report(t, rf.Unit, v, cc)
+			return
 		}
 	}
+}
+
+// ---------------------------------------------------------------- C12 across restarts
+var c12RestartMode = &c11Mode{
+	prop: "C12",
+	opts: func(policy string) genOpts {
+		return genOpts{Policy: policy, MinOps: 6, MaxOps: 25, FillPools: true, OptOuts: true, MemPressure: true,
+			Topo: vfkit.TopoOpts{MaxCPUs: 32, SmallMem: true, MaxMemNodes: 8}}
+	},
+	setup: func(e *executor) {
+		if e.h.policy == polTA {
+			c12SetupTA(e)
+		} else {
+			c12SetupBln(e)
+		}
+	},
+	invs: func(string) []invFn { return nil },
+}
+
+func TestVerifC12RestartTA(t *testing.T) {
+	c11TestMode(t, polTA, "ta-optouts-restart", false, c12RestartMode)
+}
+func TestVerifC12RestartBalloons(t *testing.T) {
+	c11TestMode(t, polBalloons, "balloons-optouts-restart", false, c12RestartMode)
 }
